@@ -67,7 +67,9 @@ class CompositeFrontend(ConstrainedFrontend):
 
     def __setstate__(self, s):
         self._solvers, self._template_frontend, self._unsat, self._track, base_state = s
-        self._owned_solvers = weakref.WeakSet(self._solver_list)
+        # ownership is not part of the pickled state and the children may be shared with another solver of the same pickle
+        # (a composite and its branch): own none of them, so that the first write copies the child
+        self._owned_solvers = weakref.WeakSet()
         # which children had been checked is not part of the pickled state: check all of them again
         self._unchecked_solvers = weakref.WeakSet(self._solver_list)
         super().__setstate__(base_state)
